@@ -29,8 +29,9 @@ _IDX = re.compile(r"\[\d+\]")
 
 
 WEIGHTS = {
-    # share of workloads per entry point (default 1).  The iterative decompositions and estimators the
-    # property is anchored in have by far the largest option spaces; cheap and option-rich ones get most.
+    # share of workloads per entry point.  The iterative decompositions and estimators the property is
+    # anchored in have by far the largest option spaces; cheap and option-rich ones get most.  Entry points
+    # not listed here are small, cheap functions (a workload costs ~10 ms): they get DEFAULT_WEIGHT.
     "parafac": 10, "tucker": 8, "non_negative_parafac": 6, "partial_tucker": 6, "constrained_parafac": 6, "robust_pca": 6,
     "CP_PLSR": 6, "svd_interface": 6, "CP.fit_transform": 4, "randomised_parafac": 4, "parafac2": 4, "non_negative_tucker": 4,
     "CPRegressor": 4, "TuckerRegressor": 4, "tensor_ring_als": 4, "tensor_ring_als_sampled": 3, "non_negative_parafac_hals": 2,
@@ -38,11 +39,14 @@ WEIGHTS = {
 }  # fmt: skip
 
 
+DEFAULT_WEIGHT = 4
+
+
 def entries():
     out = []
     for e in catalog.ENTRIES.values():
         if "c15" in e["groups"]:
-            out.extend([e] * WEIGHTS.get(e["name"], 1))
+            out.extend([e] * WEIGHTS.get(e["name"], DEFAULT_WEIGHT))
     return out
 
 
@@ -56,6 +60,15 @@ def fingerprint(entry, path, kind, tags=()):
 
 class Cancel(Exception):
     pass
+
+
+class WorkloadTimeout(BaseException):
+    """Raised by the harness's interval timer when one execution runs away (e.g. an invalid rank makes
+    the library loop forever).  The workload is then skipped and counted; it is never a verdict."""
+
+
+def _on_alarm(signum, frame):
+    raise WorkloadTimeout()
 
 
 def make_callback(P):
@@ -77,7 +90,7 @@ def build(spec, P):
     return call, g
 
 
-CORRUPTIONS = ["mask_shape", "rank_zero", "rank_big", "fixed_oob", "init_short", "iter_neg", "tensor_1d"]
+CORRUPTIONS = ["mask_shape", "rank_zero", "rank_big", "rank_one_big", "fixed_oob", "init_short", "iter_neg", "tensor_1d"]
 
 
 def corrupt(kw, how):
@@ -91,6 +104,10 @@ def corrupt(kw, how):
     elif how == "rank_big" and "rank" in kw:
         # larger than every mode size, but small enough not to exhaust memory (rank 50 on three modes made HALS allocate 65 GB)
         kw["rank"] = 7 if isinstance(kw["rank"], int) else [7 for _ in kw["rank"]] if isinstance(kw["rank"], (list, tuple)) else kw["rank"]
+    elif how == "rank_one_big" and isinstance(kw.get("rank"), list) and len(kw["rank"]) >= 3:
+        # one interior rank larger than the data can carry: the library has to truncate it somewhere
+        kw["rank"] = list(kw["rank"])
+        kw["rank"][len(kw["rank"]) // 2] = 9
     elif how == "fixed_oob" and isinstance(kw.get("fixed_modes"), list):
         kw["fixed_modes"] = list(kw["fixed_modes"]) + [7]
     elif how == "init_short" and isinstance(kw.get("init"), (tuple, list)) and len(kw["init"]) == 2 and isinstance(kw["init"][1], list) and len(kw["init"][1]) > 1:
@@ -198,19 +215,28 @@ def execute(spec, P, fault=None, observe=False, stride=1, line_fault=None, line_
 
     _ta.set_backend(spec.get("tenalg", "core"))
     P.begin(hook)
+    import signal
+
+    limit = float(os.environ.get("VERIF_EXEC_LIMIT_S", "20"))
+    old_handler = signal.signal(signal.SIGALRM, _on_alarm)
     try:
         with warnings.catch_warnings():
             warnings.simplefilter("ignore")
             with np.errstate(all="ignore"), contextlib.redirect_stdout(_DEVNULL):
                 if tracing:
                     sys.settrace(gtrace)
+                signal.setitimer(signal.ITIMER_REAL, limit)
                 try:
                     call["fn"](**kwargs)
                 finally:
+                    signal.setitimer(signal.ITIMER_REAL, 0)
                     if tracing:
                         sys.settrace(None)
     except BaseException as ex:  # includes the injected KeyboardInterrupt
-        if isinstance(ex, HarnessError):
+        if isinstance(ex, (HarnessError, WorkloadTimeout)):
+            signal.signal(signal.SIGALRM, old_handler)
+            P.end()
+            _ta.set_backend("core")
             raise
         if ex is state["exc"]:
             outcome = "raised-injected"
@@ -219,6 +245,7 @@ def execute(spec, P, fault=None, observe=False, stride=1, line_fault=None, line_
         else:
             outcome = "raised:" + type(ex).__name__
     finally:
+        signal.signal(signal.SIGALRM, old_handler)
         n = P.end()
         _ta.set_backend("core")
     after = snap_args(kwargs)
@@ -375,8 +402,10 @@ def worker(chunk):
         spec = gen_spec(rng, r, ents)
         try:
             vs, dg, n, npts = run_workload(spec, P, rng, tier, cnt)
-        except HarnessError:
-            raise
+        except WorkloadTimeout:
+            cnt.inc("runs")
+            cnt.inc("workloads_skipped_runaway_execution")
+            continue
         cnt.inc("runs")
         cnt.inc("entry:" + spec["entry"])
         distinct.add(stable_hash(spec["entry"], tuple(spec["choices"]), spec["seed"], spec["tenalg"], spec["dtype"], spec.get("corrupt")))
@@ -403,7 +432,11 @@ def digests(seed, lo, hi):
     for r in range(lo, hi):
         rng = run_rng(seed, PROP, r)
         spec = gen_spec(rng, r, ents)
-        vs, dg, n, npts = run_workload(spec, P, rng, "quick", Counter())
+        try:
+            vs, dg, n, npts = run_workload(spec, P, rng, "quick", Counter())
+        except WorkloadTimeout:
+            out.append("runaway:")
+            continue
         out.append(dg + ":" + ",".join(sorted(v[0] for v in vs)))
     return out
 
@@ -572,7 +605,7 @@ def replay_file(path):
 
 # ------------------------------------------------------------------ driver interface
 
-QUICK_RUNS = 3000
+QUICK_RUNS = 6000
 CHUNK = 4
 CHUNK_TIMEOUT = 900
 THOROUGH_S = 1200
@@ -621,5 +654,6 @@ def coverage(agg, wall):
         "dtype_of_workloads": {k[len("dtype:") :]: v for k, v in sorted(cnt.items()) if k.startswith("dtype:")},
         "tenalg_backend_of_workloads": {k[len("tenalg:") :]: v for k, v in sorted(cnt.items()) if k.startswith("tenalg:")},
         "violating_workloads": cnt.get("violating_runs", 0),
+        "workloads_skipped_runaway_execution": cnt.get("workloads_skipped_runaway_execution", 0),
         "exhaustive": False,
     }
